@@ -7,7 +7,7 @@
 From Coq Require Import List ZArith Bool Arith.
 Import ListNotations.
 From RV Require Import Gen.GenTermination Model.Retry Model.Machine Proofs.RetryP Proofs.MachineP Proofs.ResumeP.
-From RV Require Import Gen.GenFacts.
+From RV Require Import Gen.GenFactsSession.
 Local Open Scope Z_scope.
 
 (** For a harness that is a function of (run, invocation number): any two histories of interrupted and
